@@ -1139,13 +1139,10 @@ verdict_t run_and_check(const ucase_t& c, const std::vector<std::vector<double>>
                                     cat("f(x)-f(x0)=", excess, " allowed ", tol, " last trial fx=", log.last_trial_fx,
                                         " fy=", log.last_trial_fy, " reported as '", log.last_summary_status, "'; ", info()));
         }
-        if (excess > 10.0 * tol)
-        {
-            return verdict_t::violation(where("value-increased"), cat("f(x)-f(x0)=", excess, " allowed ", tol, "; ", info()));
-        }
+        // the 5e-4*(1+|f|) allowance is the property's own bound: no further band
         if (excess > tol)
         {
-            soft = verdict_t::borderline("value-increased");
+            return verdict_t::violation(where("value-increased"), cat("f(x)-f(x0)=", excess, " allowed ", tol, "; ", info()));
         }
     }
     return soft;
